@@ -2357,6 +2357,7 @@ func (d *Data) StoreElements(ctx *datastore.VersionedCtx, r io.Reader, kafkaOff 
 		}
 	}
 
+	dvid.VerifYield("annotation.StoreElements")
 	return batch.Commit()
 }
 
@@ -2430,6 +2431,7 @@ func (d *Data) DeleteElement(ctx *datastore.VersionedCtx, pt dvid.Point3d, kafka
 		}
 	}
 
+	dvid.VerifYield("annotation.DeleteElement")
 	return batch.Commit()
 }
 
@@ -2527,6 +2529,7 @@ func (d *Data) MoveElement(ctx *datastore.VersionedCtx, from, to dvid.Point3d, k
 		return err
 	}
 
+	dvid.VerifYield("annotation.MoveElement")
 	return batch.Commit()
 }
 
